@@ -1,9 +1,25 @@
-import Driver.Util
+import Driver.HsShared
+/-
+  Line-protocol driver of property C07: the client machine `hsRun` on the operation's draws, public
+  key and three reply bodies, with the executable SHA-1 / AES-256 / modular exponentiation plugged in.
+    c07.hs <tag> <nonce> <new_nonce> <b> <padseed> <pad16> <n> <e> <p> <q> <reply1> <reply2> <reply3>
+-/
 namespace Driver.C07
-open Mtv Driver
+open Mtv Mtv.Handshake Driver Driver.Hs
 
-/-- operations of property C07; not built yet -/
 def handle : List String → String
+  | ["c07.hs", _tag, nonce, nn, b, _ps, pad, n, e, p, q, r1, r2, r3] =>
+    match parseBytes? nonce, parseBytes? nn, parseBytes? b, parseBytes? pad, hexNat? n, e.toNat?,
+          parseBytes? r1, parseBytes? r2, parseBytes? r3 with
+    | some nonce, some nn, some b, some pad, some n, some e, some r1, some r2, some r3 =>
+      if nonce.length ≠ 16 ∨ nn.length ≠ 32 ∨ b.length ≠ 256 ∨ pad.length ≠ 16 then "bad-op" else
+      let hint : Option (Nat × Nat) := match p.toNat?, q.toNat? with
+        | some p, some q => some (p, q)
+        | _, _ => none
+      let c : Cfg := { R := Mtv.Gen.registry, P := prims hint, key := ⟨n, e⟩, d := ⟨nonce, nn, b, pad⟩ }
+      let (st, acts) := hsRun c [r1, r2, r3]
+      resultLine st acts
+    | _, _, _, _, _, _, _, _, _ => "bad-op"
   | _ => "bad-op"
 
 end Driver.C07
